@@ -434,6 +434,8 @@ class PredEval:
         if op == "attr":
             base = self.val(tm[1], env, depth)
             if isinstance(base, TypeArg) and tm[2] == "__class__":
+                if "instance" in base.flags:
+                    return TypeArg(base.cls)  # the class of an instance descriptor
                 return TypeArg("types.GenericAlias" if base.subscripted else "builtins.type")
             if isinstance(base, TypeArg) and tm[2] == "__supertype__":
                 return ("raises",)  # no descriptor of the catalogue is a NewType (AttributeError)
